@@ -774,6 +774,9 @@ func (in *Interp) step(g *Goroutine) {
 	}
 	ins := fr.block.Instrs[fr.pc]
 	fr.pc++
+	if profSteps != nil {
+		profSteps[fr.fn.String()]++
+	}
 	defer func() {
 		if r := recover(); r != nil {
 			switch e := r.(type) {
@@ -1694,3 +1697,6 @@ func (in *Interp) posOf(fr *Frame) string {
 
 var _ = token.NoPos
 var _ = strings.Join
+
+// profSteps (VERIF_PROF=1): executed SSA instructions per function, printed at exit by main.
+var profSteps map[string]int64
